@@ -22,6 +22,7 @@ ASSUMPTIONS = [
 
 
 def _close_or_same(a, b, tol):
+    """comparison with the reference model (another, equally valid, order of floating-point operations)"""
     if isinstance(a, float) or isinstance(b, float):
         return R.agg_close(a, b, tol)
     return same(a, b)
@@ -64,7 +65,8 @@ def run(case, ctx):
     for c in range(nk, len(ac)):
         for i in range(n):
             ctx.ev()
-            if not _close_or_same(wc[c][i], ac[c][gi[i]], tol):
+            # window gives "the value aggregate would compute" for the group: the same value, not a close one
+            if not same(wc[c][i], ac[c][gi[i]]):
                 first = "leading-none-key" if (None in key_tuples[i] and gi[i] == 0) else "other"
                 return ctx.fail(f"window/value-differs-from-aggregate/{first}",
                                 f"column {c} row {i} (key {key_tuples[i]}): window {wc[c][i]!r}, aggregate row {gi[i]} has {ac[c][gi[i]]!r}; "
